@@ -80,3 +80,24 @@ for T, key in (('double', 'real'), ('dsplib::cmplx_t', 'cmplx')):
 
 fn('dsplib::abs2', 'lib/math.cpp', sig='dsplib::real_t (const dsplib::cmplx_t &)', key='abs2(cmplx scalar)', serves=['C17'],
    pure=True, value='x.re * x.re + x.im * x.im')
+
+# constructors: time constants w = exp(-log(9) / (fs * t)) and documented parameter ranges
+fn('dsplib::Compressor::Compressor', D, serves=['C20', 'C05'], extra_env=LIBM, assigns=['this'],
+   throws='Or(threshold < -50, threshold > 0, ratio < 1, ratio > 50, knee_width < 0, knee_width > 20, attack_time < 0, attack_time > 4, release_time < 0, release_time > 4)',
+   requires=[('rate', 'sample_rate >= 1')],
+   ensures=[('parameters', 'And(T_ == threshold, R_ == ratio, W_ == knee_width, gs_ == 0)'),
+            ('attack_time_constant', 'wA_ == EXP(-LOG(9) / (ToReal(sample_rate) * attack_time))'),
+            ('release_time_constant', 'wR_ == EXP(-LOG(9) / (ToReal(sample_rate) * release_time))')])
+fn('dsplib::Limiter::Limiter', D, serves=['C20', 'C05'], extra_env=LIBM, assigns=['this'],
+   throws='Or(threshold < -50, threshold > 0, knee_width < 0, knee_width > 20, attack_time < 0, attack_time > 4, release_time < 0, release_time > 4)',
+   requires=[('rate', 'sample_rate >= 1')],
+   ensures=[('parameters', 'And(T_ == threshold, W_ == knee_width, gs_ == 0)'),
+            ('attack_time_constant', 'wA_ == EXP(-LOG(9) / (ToReal(sample_rate) * attack_time))'),
+            ('release_time_constant', 'wR_ == EXP(-LOG(9) / (ToReal(sample_rate) * release_time))')])
+fn('dsplib::NoiseGate::NoiseGate', D, serves=['C20', 'C05'], extra_env=LIBM, assigns=['this'],
+   throws='Or(threshold < -140, threshold > 0, attack_time < 0, attack_time > 4, release_time < 0, release_time > 4, hold_time < 0, hold_time > 4)',
+   requires=[('rate', 'And(sample_rate >= 1, sample_rate <= 1000000)'), ('hold_range', 'And(hold_time > -1000, hold_time < 1000)')],
+   ensures=[('threshold', 'tlin_ == POW(10, threshold / 20)'), ('state', 'And(cA_ == 0, lg_ == 0)'),
+            ('hold_samples', 'And(ToReal(tH_) <= hold_time * ToReal(sample_rate), hold_time * ToReal(sample_rate) < ToReal(tH_) + 1)'),
+            ('attack_time_constant', 'wA_ == EXP(-LOG(9) / (ToReal(sample_rate) * attack_time))'),
+            ('release_time_constant', 'wR_ == EXP(-LOG(9) / (ToReal(sample_rate) * release_time))')])
